@@ -63,7 +63,7 @@ def source_hash(qualname):
 
 
 def load_all():
-    for m in ("dimensions", "arrays", "indexing", "stocks", "lifetime", "system", "builders"):
+    for m in ("dimensions", "arrays", "indexing", "stocks", "lifetime", "system", "builders", "lemmas", "tables", "export"):
         try:
             importlib.import_module(f"contracts.{m}")
         except ModuleNotFoundError as e:
